@@ -31,6 +31,8 @@ RULES = {
 }
 SIMPLE_C = ["ULE(x, 11)", "UGE(x, 3)", "x == 5", "x != 5", "ULT(y, 6)", "UGE(y, 2)", "y == 6", "ULE(z, 4)", "UGT(z, 1)", "ULT(x, 3)", "UGE(x, 8)"]
 SIMPLE_E = ["x", "y", "z", "x + 1", "y + 2"]
+STRUCT_W = {"add": 30, "satisfiable": 14, "eval": 10, "batch_eval": 2, "min": 5, "max": 5, "solution": 4, "branch": 6, "split": 7, "combine": 5,
+            "merge": 7, "blank_copy": 5}
 
 
 def approximate(hist, rng, frac=0.8):
@@ -68,7 +70,9 @@ def run(ctx):
     ctx.cov["rule"] = ("exact: SolverReplacement (default), SolverReplacement(auto_replace=False), SolverHybrid — rule-directed (definition after use, contradicting / "
                        "double definition, Not(b), replaced queries, branch) and random histories of length <= 30 quick / 120 thorough; approximate: "
                        "SolverHybrid with a sound stub as approximate side, SolverHybrid(exact=False) and SolverVSA over a range-constraint alphabet, "
-                       "n = 64 >= 2^bits so that a short answer claims completeness; histories with add_replacement(variable, constant) on SolverReplacement "
+                       "n = 64 >= 2^bits so that a short answer claims completeness; the same three with split / merge / combine / blank_copy in the history "
+                       "(half of them opening with a syntactic contradiction next to independent constraints, one question, then the structural "
+                       "call; the solvers handed out are asked); histories with add_replacement(variable, constant) on SolverReplacement "
                        "run twice side by side, with and without their downsize() calls, answers compared; non-trivial = >= 3 calls")
     ctx.prove("ClaripyProofs.Props.C13", THEOREMS, driver_exe="driver_solver")
     workers = ctx.pick(4, 6)
@@ -91,13 +95,34 @@ def run(ctx):
             jobs.append({"cls": cls, "cfg": {"track": False, "reuse": False}, "hist": approximate(h, ctx.rng, 1.0 if cls == "SolverVSA" else 0.8)})
     m3 = SC.run_jobs(ctx, jobs, workers, corr=False, chunk_size=ctx.pick(12, 25))
     SC.merge_cov(ctx, m3, "approximate(real VSA side)")
-    vsa_fails = m3["fails"]
-    ctx.cov["vsa_side_exclusions"] = len(vsa_fails)
-    # a failure of the real approximate side is the frontend's only if the sound-stub runs show it too; otherwise it is an
-    # answer of the VSA backend: one classified signature per call kind
-    for f in vsa_fails:
+    # approximate answers of solvers that split / merge (no common ancestor) / combine / blank_copy HAND OUT, in particular
+    # after their operand was found unsatisfiable (a syntactic contradiction next to independent constraints, asked once):
+    # whatever an approximate frontend remembers about its own constraints must not travel to a solver holding others
+    jobs = []
+    for cls in ("SolverHybrid", "SolverVSA", "SolverHybrid:stub"):
+        for i in range(ctx.pick(30, 200)):
+            pre = L.prefix_unsat_then_structure(ctx.rng, SIMPLE_C, SIMPLE_E) if i % 2 == 0 else None
+            h = L.gen_struct_history(ctx.rng, ctx.pick(8, 24), calpha=SIMPLE_C + ["false", "b", "Not(b)"], ealpha=SIMPLE_E, balpha=SIMPLE_C,
+                                     weights=STRUCT_W, span=4, prefix=pre, keep_s=0.5, contra=0.3)
+            jobs.append({"cls": cls, "cfg": {"track": False, "reuse": False}, "hist": approximate(h, ctx.rng, 1.0 if cls == "SolverVSA" else 0.8)})
+    m5 = SC.run_jobs(ctx, jobs, workers, corr=False, chunk_size=ctx.pick(12, 25))
+    SC.merge_cov(ctx, m5, "approximate(after split/merge/combine/blank_copy)")
+    # what split / combine / merge return is C15's business; here: the answers of the solvers they hand out
+    m5_answers = [f for f in m5["fails"] if f["hist"][f["fails"][0][0]]["op"] not in ("split", "combine", "merge")]
+    ctx.cov["structure_failures_left_to_C15"] = len(m5["fails"]) - len(m5_answers)
+    # Whose answer is a wrong approximate answer of the real approximate side?  run_history asks a FRESH solver of the same class,
+    # given the same constraints in one go, the same question: if it answers alike (kind ...:stateless) the VSA backend says so
+    # about these constraints - one classified signature per call kind, C21/C22/C24/C25 own it; if not, the frontend's history
+    # made the difference and the failure is reported like any other
+    vsa_fails = []
+    for f in m3["fails"] + m5_answers:
         k, kind, why = f["fails"][0]
-        f["fails"][0] = [k, kind + ":vsa-backend-answer", why]
+        if f["cls"] != "SolverHybrid:stub" and kind.endswith(":stateless"):
+            f["fails"][0] = [k, kind[:-len(":stateless")] + ":vsa-backend-answer", why]
+            vsa_fails.append(f)
+        else:
+            fails.append(f)
+    ctx.cov["vsa_side_exclusions"] = len(vsa_fails)
     if ctx.broken and not fails:
         m4 = SC.run_jobs(ctx, jobs_exact(ctx, mult=3), workers, corr=False, chunk_size=30)
         SC.merge_cov(ctx, m4, "failing-input-search")
